@@ -2,6 +2,7 @@ package interp
 
 import (
 	"path/filepath"
+	"strconv"
 	"strings"
 
 	"golang.org/x/tools/go/ssa"
@@ -61,6 +62,7 @@ func (in *Interp) forkNext(from, def *G) *G {
 	k := in.Eng.Choose(len(c), "sched")
 	if k != 0 {
 		in.schedForks++
+		in.Eng.Tracef("sched: g%d gives way; g%d (%s) runs instead of g%d (%s)", gid(from), c[k].id, c[k].entry, def.id, def.entry)
 	}
 	return c[k]
 }
@@ -85,5 +87,30 @@ func (in *Interp) preemptPoint(what string) {
 		return
 	}
 	in.schedForks++
+	in.Eng.Tracef("preempt: g%d (%s) before %s%s\n    -> g%d (%s)", g.id, g.entry, what, in.whereShort(), c[k-1].id, c[k-1].entry)
 	in.handoff(g, c[k-1])
+}
+
+func gid(g *G) int {
+	if g == nil {
+		return -1
+	}
+	return g.id
+}
+
+// whereShort: the innermost frames of the running goroutine (for schedule traces).
+func (in *Interp) whereShort() string {
+	if in.cur == nil || in.cur.fr == nil {
+		return ""
+	}
+	var b strings.Builder
+	for fr, n := in.cur.fr, 0; fr != nil && n < 3; fr, n = fr.caller, n+1 {
+		pos := ""
+		if fr.curInstr != nil {
+			p := in.Prog.Fset.Position(fr.curInstr.Pos())
+			pos = filepath.Base(p.Filename) + ":" + strconv.Itoa(p.Line)
+		}
+		b.WriteString(" < " + fr.fn.Name() + " " + pos)
+	}
+	return b.String()
 }
